@@ -10,6 +10,7 @@ from __future__ import annotations
 import ast
 
 from ..common import REPO
+from ..guard import table
 from ..lean import lean_string
 
 GEN_NAME = "Formats"
@@ -81,14 +82,14 @@ def _strs(xs) -> str:
 
 def generate() -> str:
     out = ["namespace Dcg.Gen.Formats", ""]
-    for name, paths in schema_paths().items():
+    for name, paths in table(schema_paths, {"jsonSchemaPaths": [], "openapiSchemaPaths": []}).items():
         out.append(f"/-- SCHEMA_PATHS of the parser class -/\ndef {name} : List String := {_strs(paths)}\n")
         out.append(f"/-- the same, split into the keys walked from the document root (`schema_paths`) -/\ndef {name}Split : List (List String) :=\n  [" + ", ".join(_strs(split_path(p)) for p in paths) + "]\n")
     rows = ",\n   ".join(
-        f"({lean_string(t)}, [" + ", ".join(f"({lean_string(f)}, {lean_string(ty)})" for f, ty in fm) + "])" for t, fm in data_formats()
+        f"({lean_string(t)}, [" + ", ".join(f"({lean_string(f)}, {lean_string(ty)})" for f, ty in fm) + "])" for t, fm in table(data_formats, [])
     )
     out.append(f"/-- json_schema_data_formats: type ↦ format ↦ Types member -/\ndef dataFormats : List (String × List (String × String)) :=\n  [{rows}]\n")
-    steps = ", ".join(f"({lean_string(a)}, {lean_string(b)}, {lean_string(c)})" for a, b, c in bounds_steps())
+    steps = ", ".join(f"({lean_string(a)}, {lean_string(b)}, {lean_string(c)})" for a, b, c in table(bounds_steps, [("?", "unrecognised shape of the validator", "?")]))
     out.append(
         "/-- branches of validate_exclusive_maximum_and_exclusive_minimum in source order:\n"
         "(keyword, literal compared by `is`, action) -/\n"
